@@ -5,6 +5,7 @@
 package scanworld
 
 import (
+	"bytes"
 	"context"
 	"crypto/sha256"
 	"encoding/binary"
@@ -46,8 +47,11 @@ const tsBase uint64 = 1_600_000_000_000
 type tmpl struct {
 	id       int
 	name     string
-	pre      bool // precert_entry
-	parses   bool // the (pre)certificate is well-formed X.509
+	pre      bool                   // precert_entry
+	parses   bool                   // the (pre)certificate parses (possibly with non-fatal errors)
+	nonfatal bool                   // parses only leniently: the x509 fork reports a non-fatal error and still returns the certificate
+	leafBad  bool                   // the MerkleTreeLeaf itself cannot be decoded (truncated / unknown entry type): no RawLogEntry can be built
+	leafFn   func(ts uint64) []byte // leaf_input builder when it is not a well-formed MerkleTreeLeaf
 	serial   int64
 	cn       string
 	grp      string // "A" / "B" (prefix of the CN)
@@ -132,7 +136,53 @@ func buildTemplates() []*tmpl {
 		entry:   oracle.Entry{Type: oracle.PrecertEntry, IssuerKeyHash: sha256.Sum256(ix.Spec.Key.SPKI), TBS: garbage},
 		extra:   oracle.PrecertExtraData([]byte("not a precertificate"), chain),
 		certDER: []byte("not a precertificate"), chain: chain})
+	// (pre)certificates that parse only leniently: one byte of the subject's PrintableString common name is
+	// replaced by '_' (not a PrintableString character) in the signed bytes; nothing in the scanner verifies
+	// signatures. The x509 fork falls back to its lax ASN.1 mode and reports a non-fatal error.
+	for _, sp := range []lspec{{"B", false, 1006, iy, false, k[9]}, {"A", true, 1007, ix, false, k[4]}} {
+		kind := "nfcert"
+		if sp.pre {
+			kind = "nfpre"
+		}
+		cn := fmt.Sprintf("grp%s-%s-%dx", sp.grp, kind, len(out))
+		exts := []oracle.ExtKind{"aki", "ski", "ku", "eku"}
+		if sp.pre {
+			exts = append(exts, "poison")
+		}
+		leaf := oracle.Build(oracle.CertSpec{CN: cn, Serial: sp.serial, Key: sp.key, Issuer: sp.issuer,
+			NotBefore: epoch.AddDate(0, -1, 0), NotAfter: epoch.AddDate(1, 0, 0), Exts: exts})
+		bad := cn[:len(cn)-1] + "_"
+		spoil := func(b []byte) []byte { return bytes.ReplaceAll(append([]byte(nil), b...), []byte(cn), []byte(bad)) }
+		e := leaf.EntryFor()
+		e.Cert, e.TBS = spoil(e.Cert), spoil(e.TBS)
+		t := &tmpl{id: len(out), name: fmt.Sprintf("%s%d", kind, len(out)), pre: sp.pre, parses: true, nonfatal: true, serial: sp.serial, cn: bad, grp: sp.grp,
+			issuerCN: sp.issuer.Spec.CN, entry: e, certDER: spoil(leaf.DER), chain: [][]byte{sp.issuer.DER, root.DER}}
+		if sp.pre {
+			t.extra = oracle.PrecertExtraData(t.certDER, t.chain)
+		} else {
+			t.extra = oracle.X509ExtraData(t.chain)
+		}
+		out = append(out, t)
+	}
+	// leaves that are not a decodable MerkleTreeLeaf: the fetcher has to pass them through untouched, the
+	// scanner cannot build a RawLogEntry from them. Version, leaf type and timestamp are in place, so every
+	// index still has its own bytes.
+	u64 := func(v uint64) []byte { b := make([]byte, 8); binary.BigEndian.PutUint64(b, v); return b }
+	out = append(out, &tmpl{id: len(out), name: "truncleaf", leafBad: true, extra: oracle.X509ExtraData(chain), chain: chain,
+		leafFn: func(ts uint64) []byte {
+			return append(append([]byte{0, 0}, u64(ts)...), 0, 0, 0, 0x10, 0x00, 0x30, 0x82)
+		}}) // x509_entry announcing 4096 bytes, 2 present
+	out = append(out, &tmpl{id: len(out), name: "unktype", leafBad: true, extra: oracle.X509ExtraData(chain), chain: chain,
+		leafFn: func(ts uint64) []byte { return append(append([]byte{0, 0}, u64(ts)...), 0, 7, 0, 0, 1, 0x55, 0, 0) }}) // entry_type 7
 	return out
+}
+
+// leafFor renders the leaf_input of a template at a timestamp.
+func (t *tmpl) leafFor(ts uint64) []byte {
+	if t.leafFn != nil {
+		return t.leafFn(ts)
+	}
+	return oracle.MerkleTreeLeaf(ts, t.entry, nil)
 }
 
 // logEntry is the log's content at one index (the source of truth of the oracle).
@@ -171,8 +221,12 @@ func (l *simLog) errFor(d kernel.Decision, what string) error {
 		return rspErr(400, "400 Bad Request")
 	case "net.err":
 		return &url.Error{Op: "Get", URL: l.BaseURI() + what, Err: errors.New("dial tcp: connection refused")}
-	case "rpc.unavailable":
-		return status.Error(codes.Unavailable, "backend unavailable")
+	case "rpc.unavailable": // any gRPC status the back-off treats as retryable
+		c := codes.Code(d.N)
+		if c != codes.ResourceExhausted && c != codes.Aborted && c != codes.DeadlineExceeded {
+			c = codes.Unavailable
+		}
+		return status.Error(c, "backend: "+c.String())
 	case "shutdown":
 		return context.Canceled
 	}
